@@ -76,6 +76,15 @@ def check_doc(case, stats):
     if res[1] != r.ast:
         raise Violation(case, "AST differs from the model (doc string content / media type / delimiter, or what follows), %s\n--- text:\n%s" % (
             diff_text(res[1], r.ast, "parser", "model"), r.text))
+    # the same document through a matcher that was left inside an unterminated doc string by an earlier parse
+    for opener in ('   """', "  ```md"):
+        m = gh.TokenMatcher(doc["default"])
+        D = DIALECTS[doc["default"]]
+        gh.parse("%s: f\n %s: s\n  %sx\n%s\n   never closed\n" % (D["feature"][0], D["scenario"][0], D["given"][-1], opener), matcher=m)
+        res2 = gh.parse(r.text, matcher=m)
+        if res2[0] != "ok" or res2[1] != r.ast:
+            raise Violation(case, "with a token matcher that had been left inside an unterminated %s doc string by an earlier parse the document %s\n--- text:\n%s" % (
+                opener.strip()[:3], "is rejected: %r" % (res2[1][:2],) if res2[0] != "ok" else "gives another AST, " + diff_text(res2[1], r.ast, "parser", "model"), r.text))
     ref = ref_parse(r.text, doc["default"])
     if not ref.accepted or ref.ast != r.ast:
         from vlib.common import HarnessError
